@@ -285,3 +285,513 @@ pub fn drive_c02(a: &Args) {
 
 #[allow(dead_code)]
 pub fn unused(_: RegLan) {}
+
+fn err_name(e: &aws_smt_strings::errors::Error) -> String {
+    format!("err:{:?}", e)
+}
+
+/// shortest word (over reps) leading from node `from` to each node, by BFS over the dumped edges
+fn paths(g: &Graph, from: usize) -> Vec<Option<Vec<u32>>> {
+    let n = g.nodes.len();
+    let mut p: Vec<Option<Vec<u32>>> = vec![None; n + 1];
+    p[from] = Some(vec![]);
+    let mut q = std::collections::VecDeque::new();
+    q.push_back(from);
+    while let Some(x) = q.pop_front() {
+        for (j, &y) in g.delta[x - 1].iter().enumerate() {
+            if y != 0 && p[y].is_none() {
+                let mut w = p[x].clone().unwrap();
+                w.push(g.reps[j]);
+                p[y] = Some(w);
+                q.push_back(y);
+            }
+        }
+    }
+    p
+}
+
+/// C03: class structure, class/set/str derivatives of the root and of a few of its derivatives
+pub fn drive_c03(a: &Args) {
+    use aws_smt_strings::character_sets::{CharSet, ClassId};
+    let mut rng = Rng::new(a.seed);
+    let fams = families(a, &mut rng);
+    let mut prod = Out::create(&a.out, "c03_products.ndjson");
+    let mut mgr = ReManager::new();
+    let per_term_nodes = a.sz(3, 6);
+    for (id, f) in fams.iter().enumerate() {
+        if id % 40 == 0 {
+            mgr = ReManager::new();
+        }
+        let mut ends = vec![];
+        f.t.ends(&mut ends);
+        let words = words_for(&f.t, &mut rng, 2, 3);
+        let r = guarded(|| {
+            let e = f.t.build(&mut mgr);
+            let g = dgraph(&mut mgr, e, &ends, &[]);
+            let root = g.node_of(e);
+            let pth = paths(&g, root);
+            let mut cls = vec![];
+            let upto = g.nodes.len().min(per_term_nodes);
+            for k in 1..=upto {
+                let node = g.nodes[k - 1];
+                let path = match &pth[k] {
+                    Some(p) => p.clone(),
+                    None => continue,
+                };
+                let rs = ranges_of(node.char_ranges());
+                let ids: Vec<ClassId> = node.class_ids().collect();
+                let mut cderiv = vec![];
+                for &cid in &ids {
+                    let r = guarded(|| mgr.class_derivative(node, cid));
+                    cderiv.push(match r {
+                        Ok(Ok(d)) => json!({"cid": cid_json(cid), "res": "ok", "s": g.node_of(d)}),
+                        Ok(Err(e)) => json!({"cid": cid_json(cid), "res": err_name(&e), "s": 0}),
+                        Err(_) => json!({"cid": cid_json(cid), "res": "panic", "s": 0}),
+                    });
+                }
+                let n = rs.len();
+                let mut bad_ids = vec![ClassId::Interval(n), ClassId::Interval(n + 7)];
+                if node.empty_complement() {
+                    bad_ids.push(ClassId::Complement);
+                }
+                let mut bad = vec![];
+                for cid in bad_ids {
+                    let r = guarded(|| mgr.class_derivative(node, cid));
+                    let r2 = guarded(|| mgr.start_class(node, cid));
+                    let name = |x: Result<Result<(), aws_smt_strings::errors::Error>, String>| match x {
+                        Ok(Ok(())) => "ok".to_string(),
+                        Ok(Err(e)) => err_name(&e),
+                        Err(_) => "panic".to_string(),
+                    };
+                    bad.push(json!({"cid": cid_json(cid),
+                        "res": name(r.map(|x| x.map(|_| ()))),
+                        "start_class": name(r2.map(|x| x.map(|_| ()))),
+                        "valid": node.valid_class_id(cid)}));
+                }
+                // sets [a,b] relative to the class boundaries
+                let mut pts: BTreeSet<u32> = BTreeSet::new();
+                pts.insert(0);
+                pts.insert(MAX_CHAR);
+                for &(lo, hi) in &rs {
+                    for x in [lo.saturating_sub(1), lo, hi, (hi + 1).min(MAX_CHAR)] {
+                        pts.insert(x);
+                    }
+                }
+                let mut pts: Vec<u32> = pts.into_iter().collect();
+                while pts.len() > 9 {
+                    let i = rng.below(pts.len() as u64) as usize;
+                    pts.remove(i);
+                }
+                let mut setd = vec![];
+                for (i, &x) in pts.iter().enumerate() {
+                    for &y in &pts[i..] {
+                        let set = CharSet::range(x, y);
+                        let r = guarded(|| mgr.set_derivative(node, &set));
+                        setd.push(match r {
+                            Ok(Ok(d)) => json!({"a": x, "b": y, "res": "ok", "s": g.node_of(d)}),
+                            Ok(Err(e)) => json!({"a": x, "b": y, "res": err_name(&e), "s": 0}),
+                            Err(_) => json!({"a": x, "b": y, "res": "panic", "s": 0}),
+                        });
+                    }
+                }
+                let rj: Vec<Value> = rs.iter().map(|&(x, y)| json!([x, y])).collect();
+                let idj: Vec<i64> = ids.iter().map(|&c| cid_json(c)).collect();
+                cls.push(json!({"node": k, "path": path, "ranges": rj, "ids": idj,
+                    "empty_complement": node.empty_complement(), "nclasses": node.num_deriv_classes(),
+                    "cderiv": cderiv, "bad": bad, "setd": setd}));
+            }
+            let mut roots = vec![json!({"w": [], "s": root, "tag": "C03:char_derivative"})];
+            for w in &words {
+                let d = mgr.str_derivative(e, &SmtString::from(w.clone()));
+                // extra nodes reached only by str_derivative would be a closure failure; node_of gives 0
+                roots.push(json!({"w": w, "s": g.node_of(d), "tag": "C03:str_derivative"}));
+            }
+            (g, cls, roots)
+        });
+        match r {
+            Ok((g, cls, roots)) => {
+                let mut m = base_case(id, f, &f.t);
+                let explore = f.t.cost() <= COST_LIMIT && g.nodes.len() <= 60;
+                m.insert("op".into(), json!(if explore { "dgraph3" } else { "dgraph_skipped" }));
+                g.json_fields(&mut m);
+                m.insert("roots".into(), json!(roots));
+                m.insert("cls".into(), json!(cls));
+                prod.emit(Value::Object(m));
+            }
+            Err(msg) => {
+                prod.emit(panic_case(id, f, "build/derivatives", &msg));
+                mgr = ReManager::new();
+            }
+        }
+    }
+    let np = prod.finish();
+    println!("{{\"family\":\"c03\",\"terms\":{},\"products\":{}}}", fams.len(), np);
+}
+
+fn explore_ok(t: &T) -> bool {
+    t.cost() <= COST_LIMIT
+}
+
+/// terms with larger loop counters so that the number of derivatives varies widely (C19)
+fn counter_family(pool: &Pool, rng: &mut Rng, n: usize) -> Vec<T> {
+    let mut v = vec![];
+    let a = T::Chr(pool.a);
+    let ab = T::Rng(pool.a, pool.b);
+    for k in [1u32, 2, 5, 9, 17, 40] {
+        v.push(T::Pow(Box::new(a.clone()), k));
+        v.push(T::Loop(Box::new(ab.clone()), k, Some(k + 3)));
+        v.push(T::Loop(Box::new(ab.clone()), k, None));
+        v.push(T::Cat2(Box::new(T::All), Box::new(T::Cat2(Box::new(a.clone()), Box::new(T::Pow(Box::new(T::AllChar), k.min(6)))))));
+        v.push(T::SmtLoop(Box::new(T::Str(vec![pool.a, pool.b])), k / 2, k));
+    }
+    for _ in 0..n {
+        let i = rng.range(0, 12);
+        let body = random_term(rng, 1, pool);
+        v.push(T::Loop(Box::new(body), i, if rng.coin(1, 3) { None } else { Some(i + rng.range(0, 10)) }));
+    }
+    v
+}
+
+/// C05: emptiness and witnesses
+pub fn drive_c05(a: &Args) {
+    let mut rng = Rng::new(a.seed);
+    let mut fams = families(a, &mut rng);
+    // the semantically-empty family again under a second layout, and on top of random operands
+    let pool2 = Pool::new(&mut rng, false);
+    for t in semantically_empty_family(&pool2) {
+        fams.push(Fam { t, fam: "sem-empty" });
+    }
+    let mut out = Out::create(&a.out, "c05_empty.ndjson");
+    let mut mgr = ReManager::new();
+    for (id, f) in fams.iter().enumerate() {
+        if id % 40 == 0 {
+            mgr = ReManager::new();
+        }
+        let r = guarded(|| {
+            let e = f.t.build(&mut mgr);
+            let order_first = id % 2 == 0;
+            // both orders of the two queries (cache effects)
+            let (empty, w) = if order_first {
+                let x = mgr.is_empty_re(e);
+                (x, mgr.get_string(e))
+            } else {
+                let w = mgr.get_string(e);
+                (mgr.is_empty_re(e), w)
+            };
+            match w {
+                None => (empty, false, vec![], false, false, true, e.is_empty()),
+                Some(s) => {
+                    let inre = mgr.str_in_re(&s, e);
+                    let acc = mgr.compile(e).accepts(&s);
+                    let v: Vec<u32> = s.iter().cloned().collect();
+                    (empty, true, v, inre, acc, s.is_good(), e.is_empty())
+                }
+            }
+        });
+        match r {
+            Ok((empty, has_w, w, inre, acc, good, syn_empty)) => {
+                let mut m = base_case(id, f, &f.t);
+                m.insert("op".into(), json!("empty"));
+                m.insert("exact".into(), json!(explore_ok(&f.t)));
+                m.insert("empty".into(), json!(empty));
+                m.insert("syn_empty".into(), json!(syn_empty));
+                m.insert("has_w".into(), json!(has_w));
+                m.insert("w".into(), json!(w));
+                m.insert("w_in_re".into(), json!(inre));
+                m.insert("w_acc".into(), json!(acc));
+                m.insert("w_good".into(), json!(good));
+                out.emit(Value::Object(m));
+            }
+            Err(msg) => {
+                out.emit(panic_case(id, f, "is_empty_re/get_string", &msg));
+                mgr = ReManager::new();
+            }
+        }
+    }
+    let n = out.finish();
+    println!("{{\"family\":\"c05\",\"terms\":{},\"events\":{}}}", fams.len(), n);
+}
+
+/// C18: start_char / start_class
+pub fn drive_c18(a: &Args) {
+    use aws_smt_strings::character_sets::ClassId;
+    let mut rng = Rng::new(a.seed);
+    let mut fams = families(a, &mut rng);
+    let pool2 = Pool::new(&mut rng, false);
+    for t in semantically_empty_family(&pool2) {
+        fams.push(Fam { t, fam: "sem-empty" });
+    }
+    let mut out = Out::create(&a.out, "c18_start.ndjson");
+    let mut mgr = ReManager::new();
+    for (id, f) in fams.iter().enumerate() {
+        if id % 40 == 0 {
+            mgr = ReManager::new();
+        }
+        if !explore_ok(&f.t) {
+            continue;
+        }
+        let mut ends = vec![];
+        f.t.ends(&mut ends);
+        let r = guarded(|| {
+            let e = f.t.build(&mut mgr);
+            let rs = ranges_of(e.char_ranges());
+            let mut pts: BTreeSet<u32> = ends.iter().cloned().filter(|&x| x <= MAX_CHAR).collect();
+            pts.insert(0);
+            pts.insert(MAX_CHAR);
+            add_range_reps(&mut pts, &rs);
+            let chars: Vec<u32> = pts.into_iter().collect();
+            // class queries first on even ids, char queries first on odd ids
+            let mut classes = vec![];
+            let mut res = vec![];
+            let do_classes = |mgr: &mut ReManager, classes: &mut Vec<Value>| {
+                let n = rs.len();
+                let mut ids: Vec<ClassId> = e.class_ids().collect();
+                ids.push(ClassId::Interval(n));
+                ids.push(ClassId::Interval(n + 3));
+                if e.empty_complement() {
+                    ids.push(ClassId::Complement);
+                }
+                for cid in ids {
+                    let x = guarded(|| mgr.start_class(e, cid));
+                    classes.push(json!({"cid": cid_json(cid), "valid": e.valid_class_id(cid), "res": match x {
+                        Ok(Ok(b)) => format!("ok:{}", b),
+                        Ok(Err(er)) => err_name(&er),
+                        Err(_) => "panic".to_string(),
+                    }}));
+                }
+            };
+            if id % 2 == 0 {
+                do_classes(&mut mgr, &mut classes);
+            }
+            for &c in &chars {
+                res.push(mgr.start_char(e, c));
+            }
+            if id % 2 == 1 {
+                do_classes(&mut mgr, &mut classes);
+            }
+            (rs, chars, res, classes)
+        });
+        match r {
+            Ok((rs, chars, res, classes)) => {
+                let mut m = base_case(id, f, &f.t);
+                m.insert("op".into(), json!("start"));
+                let rj: Vec<Value> = rs.iter().map(|&(x, y)| json!([x, y])).collect();
+                m.insert("ranges".into(), json!(rj));
+                m.insert("chars".into(), json!(chars));
+                m.insert("res".into(), json!(res));
+                m.insert("classes".into(), json!(classes));
+                out.emit(Value::Object(m));
+            }
+            Err(msg) => {
+                out.emit(panic_case(id, f, "start_char/start_class", &msg));
+                mgr = ReManager::new();
+            }
+        }
+    }
+    let n = out.finish();
+    println!("{{\"family\":\"c18\",\"terms\":{},\"events\":{}}}", fams.len(), n);
+}
+
+/// far above any legitimate number of derivatives for the generated sizes (DESIGN 5 C19)
+pub const ITER_CAP: usize = 200_000;
+
+/// C19: iter_derivatives closure and the try_compile bound
+pub fn drive_c19(a: &Args) {
+    let mut rng = Rng::new(a.seed);
+    let mut fams = families(a, &mut rng);
+    let pool = Pool::new(&mut rng, true);
+    for t in counter_family(&pool, &mut rng, a.sz(60, 600)) {
+        fams.push(Fam { t, fam: "counters" });
+    }
+    let mut out = Out::create(&a.out, "c19_closure.ndjson");
+    let mut mgr = ReManager::new();
+    for (id, f) in fams.iter().enumerate() {
+        if id % 40 == 0 {
+            mgr = ReManager::new();
+        }
+        let mut ends = vec![];
+        f.t.ends(&mut ends);
+        let r = guarded(|| {
+            let e = f.t.build(&mut mgr);
+            // the list as the iterator yields it (addresses), twice: must be stable
+            let l1: Vec<usize> = mgr.iter_derivatives(e).take(ITER_CAP + 1).map(|r| addr(r)).collect();
+            let l2: Vec<usize> = mgr.iter_derivatives(e).take(ITER_CAP + 1).map(|r| addr(r)).collect();
+            let big = l1.len() > 1500;
+            let g = if big {
+                // too large to dump: counts only (closedness is not examined for this case)
+                Graph { nodes: vec![], n_iter: l1.len(), capped: false, reps: vec![], delta: vec![], index: Default::default() }
+            } else {
+                dgraph(&mut mgr, e, &ends, &[])
+            };
+            let n = l1.len();
+            let mut distinct = l1.clone();
+            distinct.sort();
+            distinct.dedup();
+            let mut tries = vec![];
+            let bounds: Vec<(&str, usize)> = vec![("0", 0), ("L-1", n.saturating_sub(1)), ("L", n), ("L+1", n + 1), ("max", usize::MAX)];
+            for (name, b) in bounds {
+                let x = guarded(|| mgr.try_compile(e, b).map(|a| a.num_states()));
+                tries.push(match x {
+                    Ok(Some(ns)) => json!({"n": name, "res": "some", "ns": ns}),
+                    Ok(None) => json!({"n": name, "res": "none", "ns": 0}),
+                    Err(_) => json!({"n": name, "res": "panic", "ns": 0}),
+                });
+            }
+            let cns = mgr.compile(e).num_states();
+            (l1 == l2, n, distinct.len(), l1.first().cloned() == Some(addr(e)), g, tries, cns)
+        });
+        match r {
+            Ok((stable, n, ndistinct, first_root, g, tries, cns)) => {
+                let mut m = base_case(id, f, &f.t);
+                m.insert("op".into(), json!(if g.nodes.is_empty() { "closure_big" } else { "closure" }));
+                m.insert("stable".into(), json!(stable));
+                m.insert("len".into(), json!(n));
+                m.insert("distinct".into(), json!(ndistinct));
+                m.insert("first_is_root".into(), json!(first_root));
+                m.insert("terminated".into(), json!(n <= ITER_CAP));
+                m.insert("niter".into(), json!(g.n_iter));
+                m.insert("nnodes".into(), json!(g.nodes.len()));
+                m.insert("nreps".into(), json!(g.reps.len()));
+                m.insert("delta".into(), json!(g.delta));
+                m.insert("tries".into(), json!(tries));
+                m.insert("compile_ns".into(), json!(cns));
+                out.emit(Value::Object(m));
+            }
+            Err(msg) => {
+                out.emit(panic_case(id, f, "iter_derivatives/try_compile", &msg));
+                mgr = ReManager::new();
+            }
+        }
+    }
+    let n = out.finish();
+    println!("{{\"family\":\"c19\",\"terms\":{},\"events\":{}}}", fams.len(), n);
+}
+
+/// C16: included_in on pattern pairs and on sub-term pairs
+pub fn drive_c16(a: &Args) {
+    let mut rng = Rng::new(a.seed);
+    let pool = Pool::new(&mut rng, true);
+    let (ca, cb) = (T::Chr(pool.a), T::Chr(pool.b));
+    let bx = |t: &T| Box::new(t.clone());
+    let factors: Vec<T> = vec![
+        ca.clone(),
+        cb.clone(),
+        T::Rng(pool.a, pool.b),
+        T::AllChar,
+        T::All,
+        T::Star(bx(&ca)),
+        T::Plus(bx(&ca)),
+        T::Opt(bx(&ca)),
+        T::Not(bx(&ca)),
+        T::Alt2(bx(&ca), bx(&cb)),
+        T::Eps,
+        T::Loop(bx(&T::Rng(pool.a, pool.b)), 1, Some(2)),
+        T::Loop(bx(&T::AllChar), 2, None),
+        T::Star(bx(&T::Rng(pool.a, pool.c))),
+    ];
+    let mut pat = |rng: &mut Rng| -> T {
+        let n = rng.range(1, 4) as usize;
+        let v: Vec<T> = (0..n).map(|_| rng.pick(&factors).clone()).collect();
+        if v.len() == 1 {
+            v[0].clone()
+        } else {
+            T::CatL(v)
+        }
+    };
+    let mut pairs: Vec<(T, T, &'static str)> = vec![];
+    // all ordered pairs of single factors and of two-factor concatenations with a single factor
+    for x in &factors {
+        for y in &factors {
+            pairs.push((x.clone(), y.clone(), "factor-pairs"));
+        }
+    }
+    let npat = a.sz(2500, 40000);
+    for i in 0..npat {
+        let (x, y) = (pat(&mut rng), pat(&mut rng));
+        let p = match i % 8 {
+            0 => (T::Not(bx(&x)), T::Not(bx(&y))),
+            1 => (x.clone(), T::Alt2(bx(&y), bx(&pat(&mut rng)))),
+            2 => (T::And2(bx(&x), bx(&pat(&mut rng))), y.clone()),
+            3 => (T::Alt2(bx(&x), bx(&pat(&mut rng))), y.clone()),
+            4 => (x.clone(), T::And2(bx(&y), bx(&pat(&mut rng)))),
+            _ => (x.clone(), y.clone()),
+        };
+        pairs.push((p.0, p.1, "patterns"));
+    }
+    // widening pairs: y is x with one factor replaced by something larger (likely true answers)
+    for _ in 0..a.sz(1500, 20000) {
+        let n = rng.range(1, 4) as usize;
+        let v: Vec<T> = (0..n).map(|_| rng.pick(&factors).clone()).collect();
+        let mut w = v.clone();
+        let k = rng.below(n as u64) as usize;
+        w[k] = match rng.below(5) {
+            0 => T::All,
+            1 => T::Star(bx(&v[k])),
+            2 => T::Alt2(bx(&v[k]), bx(&cb)),
+            3 => T::Opt(bx(&v[k])),
+            _ => T::CatL(vec![T::All, v[k].clone(), T::All]),
+        };
+        let mk = |v: Vec<T>| if v.len() == 1 { v[0].clone() } else { T::CatL(v) };
+        pairs.push((mk(v), mk(w), "widening"));
+    }
+    // sub-term pairs of random programs
+    for _ in 0..a.sz(150, 2500) {
+        let t = random_term(&mut rng, 3, &pool);
+        let mut subs = vec![];
+        collect_subterms(&t, &mut subs);
+        subs.truncate(6);
+        for x in &subs {
+            for y in &subs {
+                pairs.push((x.clone(), y.clone(), "subterms"));
+            }
+        }
+    }
+    let mut out = Out::create(&a.out, "c16_incl.ndjson");
+    let mut mgr = ReManager::new();
+    let mut ntrue = 0;
+    for (id, (x, y, fam)) in pairs.iter().enumerate() {
+        if id % 60 == 0 {
+            mgr = ReManager::new();
+        }
+        if !(explore_ok(x) && explore_ok(y)) {
+            continue;
+        }
+        let r = guarded(|| {
+            let (ex, ey) = (x.build(&mut mgr), y.build(&mut mgr));
+            (ex.included_in(ey), std::ptr::eq(ex, ey))
+        });
+        match r {
+            Ok((res, same)) => {
+                if res {
+                    ntrue += 1;
+                }
+                out.emit(json!({"op":"incl","id":id,"fam":fam,"a":x.json(),"b":y.json(),"res":res,"same":same}));
+            }
+            Err(msg) => {
+                out.emit(json!({"op":"panic","id":id,"fam":fam,"a":x.json(),"b":y.json(),"where":"included_in","msg":msg}));
+                mgr = ReManager::new();
+            }
+        }
+    }
+    let n = out.finish();
+    println!("{{\"family\":\"c16\",\"pairs\":{},\"true_answers\":{}}}", n, ntrue);
+}
+
+fn collect_subterms(t: &T, out: &mut Vec<T>) {
+    out.push(t.clone());
+    match t {
+        T::Cat2(a, b) | T::Alt2(a, b) | T::And2(a, b) | T::Diff1(a, b) => {
+            collect_subterms(a, out);
+            collect_subterms(b, out);
+        }
+        T::CatL(v) | T::AltL(v) | T::AndL(v) => v.iter().for_each(|x| collect_subterms(x, out)),
+        T::DiffL(a, v) => {
+            collect_subterms(a, out);
+            v.iter().for_each(|x| collect_subterms(x, out));
+        }
+        T::Not(a) | T::Star(a) | T::Plus(a) | T::Opt(a) | T::Pow(a, _) | T::SmtLoop(a, _, _) | T::Loop(a, _, _) => {
+            collect_subterms(a, out)
+        }
+        _ => {}
+    }
+}
